@@ -1274,7 +1274,9 @@ class OperatorVectorSum(Operator):
     def _call(self, x, out=None):
         """Evaluate the residual at ``x`` and write to ``out`` if given."""
         if out is None:
-            out = self.operator(x)
+            # Not in-place on the result: the wrapped operator may return
+            # its input (e.g. `RealPart` on a real space)
+            return self.operator(x) + self.vector
         else:
             self.operator(x, out=out)
 
